@@ -1335,6 +1335,27 @@ func genCliBroken(rng *rand.Rand, thorough bool, emit func(*Sx)) {
 }
 
 // GenCli: all client families.
+// ORCPT of type UTF-8 containing each non-ASCII Unicode White_Space code point at the start, in the middle
+// and at the end, against a server that offers / does not offer SMTPUTF8 (unitext / xtext form): what the
+// client writes must contain no octet sequence Go's strings.Fields would split at (the code point is embedded
+// as \x{HEX} in both forms)
+func genCliOrcptSpace(rng *rand.Rand, thorough bool, emit func(*Sx)) {
+	for _, keys := range [][]string{{"8BITMIME", "SMTPUTF8", "DSN"}, {"8BITMIME", "DSN"}} {
+		for _, sp := range UniSpaces {
+			u := string(sp)
+			stream := "220 ready\r\n" + ehloReply(keys) + strings.Repeat("250 2.1.5 ok\r\n", 5)
+			cs := cliCase{stream: []byte(stream), focus: "orcpt-space"}
+			cs.cuts = randCuts(rng, cs.stream)
+			cs.calls = []cliCall{{kind: "mail", s: "f@example.org", ann: []*Sx{advSx(keys)}}}
+			for _, v := range []string{u + "x@y", "x" + u + "y@z", "x@y" + u, u + "x" + u + "@" + u + u + "y" + u} {
+				cs.calls = append(cs.calls, cliCall{kind: "rcpt", s: "t@example.org",
+					ropts: &smtp.RcptOptions{OriginalRecipientType: smtp.DSNAddressTypeUTF8, OriginalRecipient: v}, ann: []*Sx{advSx(keys)}})
+			}
+			emit(runCli(cs))
+		}
+	}
+}
+
 func GenCli(rng *rand.Rand, thorough bool, emit func(*Sx)) {
 	genCliC15(rng, thorough, emit)
 	genCliBody(rng, thorough, emit)
@@ -1347,4 +1368,5 @@ func GenCli(rng *rand.Rand, thorough bool, emit func(*Sx)) {
 	genCliSendMail(rng, thorough, emit)
 	genCliBroken(rng, thorough, emit)
 	genCliRandom(rng, thorough, emit)
+	genCliOrcptSpace(rng, thorough, emit)
 }
